@@ -8,7 +8,7 @@
 COPY=${REPO_COPY:-/tmp/repo_mut}
 NSB=${NS_BUILD:-/tmp/verif_build_ns}
 NSE=${NS_EVIDENCE:-/tmp/verif_evidence_ns}
-[ -d "$COPY/.git" ] || { echo "no copy of /repo at $COPY"; exit 2; }
+[ -d "$COPY/.git" ] || rsync -a --exclude target /repo/ "$COPY/" || { echo "could not copy /repo to $COPY"; exit 2; }
 [ -d "$NSB" ] || cp -a /verif/.build "$NSB"
 mkdir -p "$NSE"
 exec unshare -m bash -c 'mount --bind "$1" /repo && mount --bind "$2" /verif/.build && mount --bind "$3" /verif/evidence && shift 3 && exec "$@"' ns "$COPY" "$NSB" "$NSE" "$@"
